@@ -51,6 +51,8 @@ def b_str(interp, args, kwargs, node):
     v = args[0]
     if isinstance(v, (SStr, str)):
         return v
+    if hasattr(v, 'hm_str'):
+        return v.hm_str(interp)
     if isinstance(v, SBool):
         return mk_str(z3.If(v.t, z3.StringVal('True'), z3.StringVal('False')))
     if isinstance(v, SInt):
@@ -461,6 +463,9 @@ def b_tuple(interp, args, kwargs, node):
     if not args:
         return ()
     v = args[0]
+    from .heapmodel import SAbstractSet
+    if isinstance(v, SAbstractSet):
+        return v            # an immutable snapshot already
     p_ = as_pipe(v)
     if p_ is not None:
         return p_
